@@ -106,7 +106,7 @@ def pre_rt(ver: int, ni: int, cp: str, value: bytes, ti: int, dn: int, dictsec: 
     return in_shard(ti + 4 * (ver - 1) + 8 * len(value) + 8 * (P.V + 1) * len(cp))
 
 
-@harness(pre=pre_rt, quick=dict(V=1, timeout=90, reach_timeout=60), thorough=dict(V=4, timeout=900),
+@harness(pre=pre_rt, quick=dict(V=1, timeout=45, reach_timeout=60), thorough=dict(V=4, timeout=900),
          nshards=dict(quick=32, thorough=80), reach=["rt_v1", "rt_v2_dict", "rt_last_second"],
          classify=classify_rt,
          units=["web.create_signed_value", "web.decode_signed_value", "web._get_version",
@@ -190,7 +190,7 @@ def pre_forge(ver: int, ni: int, cp: str, value: bytes, ti: int, dictsec: bool, 
     return in_shard(op + 6 * (ver - 1) + 12 * ni)
 
 
-@harness(pre=pre_forge, quick=dict(V=1, C=0, NI=1, TSTEP=3, timeout=70, reach_timeout=120),
+@harness(pre=pre_forge, quick=dict(V=1, C=0, NI=1, TSTEP=3, timeout=45, reach_timeout=200),
          thorough=dict(V=3, C=1, NI=4, TSTEP=1, timeout=1400, reach_timeout=300),
          nshards=dict(quick=12, thorough=48),
          reach=["accepted_unmodified", "rejected_edit", "rejected_other_name", "rejected_expired",
@@ -204,6 +204,10 @@ def pre_forge(ver: int, ni: int, cp: str, value: bytes, ti: int, dictsec: bool, 
          outside=OUTSIDE)
 def h_forge(ver: int, ni: int, cp: str, value: bytes, ti: int, dictsec: bool, si: int,
             op: int, pos: int, b: int, ni2: int, cp2: str, dnow: int, dictsec2: bool, si2: int, minv: int):
+    if P.reach == "rejected_min_version" and not (op == 0 and ver == 1 and minv == 2 and ni2 == ni and cp2 == cp):
+        return      # reach-twin steering only
+    if P.reach == "rejected_expired" and not (op == 0 and ni2 == ni and cp2 == cp and dnow > MAXAGE):
+        return      # reach-twin steering only
     name, name2 = mkname(ni, cp), mkname(ni2, cp2)
     s0 = issue(ver, name, value, ti, dictsec, si)
     s = edit(s0, op, pos, b)
@@ -260,7 +264,7 @@ def pre_total(pi: int, free: bytes, asstr: bool, dictsec: bool, ni: int, minv: i
     return in_shard(pi + len(TPFX) * len(free))
 
 
-@harness(pre=pre_total, quick=dict(L=2, timeout=70, reach_timeout=200), thorough=dict(L=5, timeout=1200, reach_timeout=300),
+@harness(pre=pre_total, quick=dict(L=2, timeout=45, reach_timeout=200), thorough=dict(L=5, timeout=1200, reach_timeout=300),
          nshards=dict(quick=24, thorough=48), reach=["v2_fields_parsed", "v1_three_parts"],
          classify=classify_total,
          units=["web.decode_signed_value", "web._get_version", "web._decode_signed_value_v1",
@@ -283,3 +287,141 @@ def h_total(pi: int, free: bytes, asstr: bool, dictsec: bool, ni: int, minv: int
     if len(s.split(b"|")) == 3:
         reached("v1_three_parts")
     assert got is None, "short arbitrary string decoded to %r" % (got,)
+
+
+# ------------------------------------------------------------------------------------------ 4
+# v1 re-split attacker (lead's addition).  Under the perfect-MAC assumption the only strings whose v1
+# signature verifies are those whose signed material name||value_b64||timestamp is byte-identical to
+# issued material - so the whole attack surface of the undelimited v1 format is "the same concatenation,
+# split at other places".  The split points (i, j) are solver variables; payload bytes are symbolic.
+RS_NAMES = ["fo", "x"]
+RS_T = [1600000000, 1, 12]
+NAME_SHIFT = "v1-name-boundary-shift"
+TS_SHIFT = "v1-value-timestamp-boundary-shift"
+
+
+def _rs_shape(ni, value, ti, i, j):
+    """Names the recorded known-finding shapes (v1 format is frozen upstream; v2 is immune):
+    NAME_SHIFT - the name/value boundary is moved (value signed for 'fo' read under 'foYQ==');
+    TS_SHIFT   - the value/timestamp boundary is moved AND the presented timestamp has no leading zero
+                 (tornado only rejects leading zeros and far-future timestamps, which leaves creation
+                 times within a few digits of the epoch exposed).
+    A moved value/timestamp boundary whose timestamp DOES start with '0' is not a recorded shape."""
+    name = RS_NAMES[ni]
+    nb = len(name)
+    if i != nb:
+        return NAME_SHIFT
+    import base64 as _b64
+    v0 = _b64.b64encode(bytes(value))
+    if j != nb + len(v0):
+        concat = name.encode() + v0 + str(RS_T[ti]).encode()
+        if concat[j:j + 1] != b"0":
+            return TS_SHIFT
+    return None
+
+
+def classify_resplit(ni, value, ti, i, j, dnow):
+    return _rs_shape(ni, value, ti, i, j)
+
+
+def pre_resplit(ni: int, value: bytes, ti: int, i: int, j: int, dnow: int) -> bool:
+    if not (0 <= ni < len(RS_NAMES) and len(value) <= P.RV and 0 <= ti < len(RS_T)):
+        return False
+    if not (0 <= i <= j <= 2 + 4 * ((P.RV + 2) // 3) + 10 and 0 <= dnow <= MAXAGE):
+        return False
+    return in_shard(i + 3 * ti)
+
+
+@harness(pre=pre_resplit, quick=dict(RV=3, timeout=60, reach_timeout=120),
+         thorough=dict(RV=6, timeout=1200, reach_timeout=300),
+         nshards=dict(quick=12, thorough=24),
+         reach=["original_split_accepted", "resplit_rejected", "zero_led_timestamp_rejected"],
+         classify=classify_resplit,
+         units=["web.create_signed_value (v1)", "web.decode_signed_value", "web._decode_signed_value_v1"],
+         stubs=STUBS + ["attacker = any re-split (i, j) of the issued v1 material name||b64(value)||timestamp, "
+                        "presented with the issued signature under the name concat[:i]; names {fo, x}; creation "
+                        "times {1600000000, 1, 12}; payload = any bytes up to RV; reader's clock = creation "
+                        "time + any 0..31 days"],
+         outside=OUTSIDE + ["payloads longer than RV bytes"])
+def h_v1_resplit(ni: int, value: bytes, ti: int, i: int, j: int, dnow: int):
+    name, t0 = RS_NAMES[ni], RS_T[ti]
+    s0 = web.create_signed_value("k1", name, value, version=1, clock=lambda: t0)
+    v0, ts0, sig0 = s0.split(b"|")
+    concat = utf8(name) + v0 + ts0
+    if j > len(concat):
+        return
+    name2 = concat[:i].decode("latin1")
+    v2, t2 = concat[i:j], concat[j:]
+    now = t0 + dnow
+    try:
+        got = web.decode_signed_value("k1", name2, v2 + b"|" + t2 + b"|" + sig0, clock=lambda: now,
+                                      min_version=1)
+    except Exception as e:
+        raise AssertionError("decode_signed_value raised %r" % (e,))
+    if i == len(name) and j == i + len(v0):
+        reached("original_split_accepted")
+        assert got == value, "issued value not returned: %r" % (got,)
+        return
+    reached("resplit_rejected")
+    if t2[:1] == b"0" and i == len(name):
+        reached("zero_led_timestamp_rejected")
+    if got is not None:
+        shape = _rs_shape(ni, value, ti, i, j)
+        if shape is not None and shape in P.exclude:
+            return      # recorded known finding (known_findings.json); every other re-split must fail
+        raise AssertionError("FORGERY by re-splitting the signed material: issued %r for name %r, presented "
+                             "%r under name %r decodes to %r" % (s0, name, v2 + b"|" + t2, name2, got))
+
+
+import base64 as _b64mod
+
+# payloads whose base64 text ends in characters that can also be read as a decimal timestamp prefix
+# (all-zero, zero-led, non-zero digits, mixed) - chosen by symbolic index: base64 of free symbolic bytes
+# followed by int() costs ~100 solver queries per path, so the digit structure is pooled instead
+TAIL_B64 = ["0000", "0001", "1234", "9000", "a000", "00a0", "abcd", "12340000", "00001234", "ab120000"]
+TAIL_POOL = [_b64mod.b64decode(x) for x in TAIL_B64]
+
+
+def pre_tail(vi: int, ti: int, k4: int, dnow: int) -> bool:
+    return (0 <= vi < len(TAIL_POOL) and 0 <= ti < len(RS_T) and 1 <= k4 <= 2 and 0 <= dnow <= MAXAGE
+            and in_shard(ti))
+
+
+def classify_tail(vi, ti, k4, dnow):
+    v0 = TAIL_B64[vi]
+    return TS_SHIFT if v0[max(len(v0) - 4 * k4, 0):][:1] != "0" else None
+
+
+@harness(pre=pre_tail, quick=dict(timeout=120, reach_timeout=60),
+         thorough=dict(timeout=600, reach_timeout=120),
+         nshards=dict(quick=3, thorough=3),
+         reach=["tail_moved_rejected"],
+         classify=classify_tail,
+         units=["web.create_signed_value (v1)", "web.decode_signed_value", "web._decode_signed_value_v1"],
+         stubs=STUBS + ["attacker moves the last 4*k4 base64 characters of the payload in front of the timestamp "
+                        "(the v1 signature is unchanged by that); payload from a pool whose base64 tails are "
+                        "zero-led / all-zero / non-zero digits / mixed; creation times {1600000000, 1, 12}; "
+                        "reader's clock = creation time + any 0..31 days (solver variable)"],
+         outside=OUTSIDE + ["payloads outside the pool (h_v1_resplit searches free payloads, bounded)"])
+def h_v1_tail_shift(vi: int, ti: int, k4: int, dnow: int):
+    """The value/timestamp boundary of a v1 value is moved left by 4*k4 characters: must be rejected
+    (tornado's defences: leading-zero check + far-future check)."""
+    name, t0, value = "fo", RS_T[ti], TAIL_POOL[vi]
+    s0 = web.create_signed_value("k1", name, value, version=1, clock=lambda: t0)
+    v0, ts0, sig0 = s0.split(b"|")
+    if 4 * k4 > len(v0):
+        return
+    cut = len(v0) - 4 * k4
+    v2, t2 = v0[:cut], v0[cut:] + ts0
+    now = t0 + dnow
+    try:
+        got = web.decode_signed_value("k1", name, v2 + b"|" + t2 + b"|" + sig0, clock=lambda: now, min_version=1)
+    except Exception as e:
+        raise AssertionError("decode_signed_value raised %r" % (e,))
+    if got is None:
+        reached("tail_moved_rejected")
+        return
+    if t2[:1] != b"0" and TS_SHIFT in P.exclude:
+        return          # recorded known finding (creation times within a few digits of the epoch)
+    raise AssertionError("FORGERY: payload tail moved into the timestamp: issued %r, presented %r decodes to %r"
+                         % (s0, v2 + b"|" + t2, got))
